@@ -911,7 +911,10 @@ func (d *decoder) processTextRegion(hdr *segmentHeader, data []byte) error {
 // splitBitmapH splits a collective bitmap horizontally into sub-bitmaps
 // with the given widths. All sub-bitmaps have the same height as src.
 func splitBitmapH(pool *bitmapPool, src *bitmap.Bitmap, widths []int) ([]*bitmap.Bitmap, error) {
-	result := make([]*bitmap.Bitmap, len(widths))
+	result, err := pool.allocPointers(len(widths))
+	if err != nil {
+		return nil, err
+	}
 	xOff := 0
 	for i, w := range widths {
 		sub, err := pool.allocBitmap(w, src.Height())
